@@ -23,6 +23,7 @@ Accept(e, c) ==
   CASE e.op = "eq" -> /\ PropEq(c, e.a, e.b, e.calls, e.ret)
                       /\ PropNe(c, e.a, e.b, e.ncalls, e.nret)
     [] e.op \in {"cmp", "partial_cmp"} -> PropCmp(c, e.op, e.a, e.b, e.calls, e.ret)
+    [] e.op = "disctype" -> e.ty = DiscTypeOf(c)      \* read off the in-process expansion of the same item
     [] e.op = "eq_same" -> PropEqSame(c, e.a, e.calls, e.ret) /\ PropNeSame(c, e.a, e.ncalls, e.nret)
     [] e.op = "partial_cmp_same" -> PropCmpSame(c, "partial_cmp", e.a, e.calls, e.ret)
     [] e.op = "hashes" -> PropHashAll(c, e.obs, e.eqs)
